@@ -20,6 +20,7 @@ def run(chk):
                  ("MINK.closing-edge", "path edges i = delta..pathLen-1 with delta = isClosed ? 0 : 1 and g starting at the last / first point"),
                  ("MINK.orientation", "every quad is reversed if not positive before it is stored"),
                  ("MINK.quad", "quad corners (g,h) (i,h) (i,j) (g,j)"),
+                 ("MINK.roles", "every call of detail::Minkowski (public functions and recursion) passes the caller's pattern to the pattern slot and its path to the path slot"),
                  ("MINK.union", "MinkowskiSum/Diff = Union(Minkowski(pattern, path, true/false, isClosed), NonZero), 64 and D overloads"),
                  ("SCALE.wrapper", "PathD overloads: inputs scaled by 10^precision, result de-scaled")):
         chk.rule(r, d)
